@@ -194,23 +194,119 @@ func observe(ze *gozod.ZodError) string {
 	return "flat=" + fl + " tree=" + tr + " fmt=" + fm + " pretty=" + pr
 }
 
+// ---------------------------------------------------------------- the other entry points
+//
+// Every report has more than one way in.  A case is observed through ONE of these variants (named in the op
+// comment); the op line always carries mapper(issue) for the mapper the variant uses, so the model is the same.
+//
+//	default           FlattenError / TreeifyError / FormatError / PrettifyError
+//	error-method      …, the pretty report taken from err.Error()
+//	custom-formatter  FlattenErrorWithFormatter(e, CF) / TreeifyErrorWithMapper(e, M_CF) / FormatError(e with
+//	                  SetFormatter(CF)) / PrettifyErrorWithFormatter(e, CF); M_CF = own message, else CF's output
+//	custom-mapper     FlattenErrorWithMapper(e, M2) / TreeifyErrorWithMapper(e, M2); FormatError and PrettifyError
+//	                  (no mapper entry point is exported for them) on the error whose messages are M2's outputs
+//	with-mapper-default  FlattenErrorWithMapper / TreeifyErrorWithMapper with the identity-on-Message mapper,
+//	                  PrettifyErrorWithFormatter(e, e.Formatter())
+
+type customFormatter struct{}
+
+func (customFormatter) FormatMessage(raw core.ZodRawIssue) string {
+	return "CF<" + string(raw.Code) + "#" + strconv.Itoa(len(raw.Path)) + ">"
+}
+
+// mCF is what defaultIssueMapper(customFormatter{}) must compute, written here from its documentation.
+func mCF(is core.ZodIssue) string {
+	if is.Message != "" {
+		return is.Message
+	}
+	return "CF<" + string(is.Code) + "#" + strconv.Itoa(len(is.Path)) + ">"
+}
+
+func m2(is core.ZodIssue) string {
+	return "<" + string(is.Code) + "@" + strconv.Itoa(len(is.Path)) + ">" + is.Message
+}
+
+// mapDeep returns a deep copy of the list with every Message replaced by f(issue).
+func mapDeep(list []core.ZodIssue, f func(core.ZodIssue) string) []core.ZodIssue {
+	if list == nil {
+		return nil
+	}
+	out := make([]core.ZodIssue, len(list))
+	for i, is := range list {
+		is.Message = f(list[i])
+		if is.Errors != nil {
+			brs := make([][]core.ZodIssue, len(is.Errors))
+			for j, br := range is.Errors {
+				brs[j] = mapDeep(br, f)
+			}
+			is.Errors = brs
+		}
+		is.Issues = mapDeep(is.Issues, f)
+		out[i] = is
+	}
+	return out
+}
+
+var variants = []string{"default", "error-method", "custom-formatter", "custom-mapper", "with-mapper-default"}
+
+// observeVia returns the issue list whose messages are mapper(issue) for the variant's mapper (nil = the
+// library's default mapper: `filled` asks the library) and the observation through the variant's entry points.
+func observeVia(variant string, ze *gozod.ZodError) ([]core.ZodIssue, string) {
+	part := func(name string, f func() string) string { return name + "=" + guarded(f) }
+	join := func(ps ...string) string { return strings.Join(ps, " ") }
+	switch variant {
+	case "error-method":
+		return nil, join(
+			part("flat", func() string { return rFlat(gozod.FlattenError(ze)) }),
+			part("tree", func() string { return rTree(gozod.TreeifyError(ze)) }),
+			part("fmt", func() string { return rFmt(gozod.FormatError(ze)) }),
+			part("pretty", func() string { return "P" + hx_(ze.Error()) }))
+	case "custom-formatter":
+		cf := customFormatter{}
+		withCF := *ze
+		withCF.SetFormatter(cf)
+		return mapDeep(ze.Issues, mCF), join(
+			part("flat", func() string { return rFlat(gozod.FlattenErrorWithFormatter(ze, cf)) }),
+			part("tree", func() string { return rTree(gozod.TreeifyErrorWithMapper(ze, mCF)) }),
+			part("fmt", func() string { return rFmt(gozod.FormatError(&withCF)) }),
+			part("pretty", func() string { return "P" + hx_(gozod.PrettifyErrorWithFormatter(ze, cf)) }))
+	case "custom-mapper":
+		mapped := *ze
+		mapped.Issues = mapDeep(ze.Issues, m2)
+		return mapped.Issues, join(
+			part("flat", func() string { return rFlat(gozod.FlattenErrorWithMapper(ze, m2)) }),
+			part("tree", func() string { return rTree(gozod.TreeifyErrorWithMapper(ze, m2)) }),
+			part("fmt", func() string { return rFmt(gozod.FormatError(&mapped)) }),
+			part("pretty", func() string { return "P" + hx_(gozod.PrettifyError(&mapped)) }))
+	case "with-mapper-default":
+		return nil, join(
+			part("flat", func() string { return rFlat(gozod.FlattenErrorWithFormatter(ze, ze.Formatter())) }),
+			part("tree", func() string { return rTree(gozod.TreeifyError(ze)) }),
+			part("fmt", func() string { return rFmt(gozod.FormatError(ze)) }),
+			part("pretty", func() string { return "P" + hx_(gozod.PrettifyErrorWithFormatter(ze, ze.Formatter())) }))
+	}
+	return nil, observe(ze)
+}
+
 // ---------------------------------------------------------------- synthesised issue lists
 
 var keyPool = []string{
 	"a", "b", "user", "name", "items", "A_1", "x9", // plain identifiers
 	"0", "1", "12", "007", "7up", // look like numbers / start with a digit
 	"a.b", "user.name", "x y", "first-name", "k\"]", "[0]", "é", "名", "", // need quoting
+	"-a\"][\"-b", "-a", "-b", "a\\", "a\\\"", "x[1]", "x", "\"", "\\", "a\"].b", // quotes, backslashes, brackets
 	"_errors", "errors", "properties", "formErrors", // names the reports use themselves
 }
 var idxPool = []int{0, 0, 1, 1, 2, 3, 5, 7, 12, 19}
 var otherCodes = []core.IssueCode{"my_code", "nonoptional", "", "invalid type", "INVALID_TYPE"}
 
 type synth struct {
-	r     *hx.Rng
-	next  int
-	dup   bool
-	odd   bool
-	blank bool
+	r        *hx.Rng
+	next     int
+	dup      bool
+	odd      bool
+	blank    bool
+	maxDepth int // nesting depth of wrapper issues: 3, or 6 for a tenth of the lists
 }
 
 func (g *synth) msg() string {
@@ -255,12 +351,12 @@ func (g *synth) code() core.IssueCode {
 func (g *synth) issue(depth int) core.ZodIssue {
 	is := core.ZodIssue{}
 	is.Code = g.code()
-	is.Path = g.path(4 - depth)
+	is.Path = g.path(max(4-depth, 1))
 	if g.r.Chance(5) {
 		is.Path = nil
 	}
 	is.Message = g.msg()
-	if depth < 3 {
+	if depth < g.maxDepth {
 		// Errors/Issues are filled for wrapper codes mostly, and now and then for any code
 		wantBr := is.Code == core.InvalidUnion && g.r.Chance(75) || g.r.Chance(4)
 		wantIs := (is.Code == core.InvalidKey || is.Code == core.InvalidElement) && g.r.Chance(65) || g.r.Chance(4)
@@ -296,8 +392,19 @@ func (g *synth) list() []core.ZodIssue {
 	g.dup = g.r.Chance(25)
 	g.odd = g.r.Chance(25)
 	g.blank = g.r.Chance(15)
+	g.maxDepth = 3
+	if g.r.Chance(10) {
+		g.maxDepth = 6
+	}
+	if n == 0 && g.r.Bool() {
+		return nil // a ZodError whose Issues slice was never set
+	}
 	l := make([]core.ZodIssue, 0, n)
 	for i := 0; i < n; i++ {
+		if i > 0 && g.r.Chance(6) {
+			l = append(l, l[g.r.Intn(i)]) // the very same issue reported twice
+			continue
+		}
 		l = append(l, g.issue(0))
 	}
 	return l
@@ -512,16 +619,33 @@ func run(c hx.Config) error {
 	}
 
 	emit := func(list []core.ZodIssue, ze *gozod.ZodError, how string) {
-		op, ok := encIssues(filled(base, list))
+		variant := "default"
+		if !strings.HasSuffix(how, "corpus") && r.Chance(45) {
+			variant = hx.Pick(r, variants[1:])
+		}
+		mapped, obs := observeVia(variant, ze)
+		if mapped == nil {
+			mapped = filled(base, list)
+		}
+		op, ok := encIssues(mapped)
 		if !ok {
 			o.Count("skipped:path-element-not-string-or-index")
 			return
 		}
-		o.Emit(op+" # "+how, observe(ze))
+		o.Emit(op+" # "+how+" via "+variant, obs)
 		o.Count("source:" + strings.SplitN(how, " ", 2)[0])
+		o.Count("entry:" + variant)
 		o.Count(fmt.Sprintf("issues:%02d", min(len(list), 20)))
+		o.Count(fmt.Sprintf("nesting:%d", nesting(list)))
 		for _, is := range list {
 			o.Count("code:" + string(is.Code))
+			o.Count(fmt.Sprintf("pathlen:%d", min(len(is.Path), 6)))
+			if len(is.Path) > 0 {
+				o.Count("first-segment:" + segClass(is.Path[0]))
+			}
+			for _, el := range is.Path[min(1, len(is.Path)):] {
+				o.Count("later-segment:" + segClass(el))
+			}
 		}
 	}
 
@@ -581,6 +705,46 @@ func run(c hx.Config) error {
 		emit(ze.Issues, ze, "parse "+sd+".Parse("+vd+")")
 	}
 	return o.Close(map[string]any{"parse_errors": made})
+}
+
+// nesting is the depth of the deepest nested issue (0 = no issue has branch errors or sub-issues).
+func nesting(list []core.ZodIssue) int {
+	d := 0
+	for _, is := range list {
+		for _, br := range is.Errors {
+			if len(br) > 0 {
+				d = max(d, 1+nesting(br))
+			}
+		}
+		if len(is.Issues) > 0 {
+			d = max(d, 1+nesting(is.Issues))
+		}
+	}
+	return d
+}
+
+// segClass names how ToDotPath has to write a segment.
+func segClass(el any) string {
+	k, ok := el.(string)
+	if !ok {
+		return "index"
+	}
+	switch {
+	case k == "":
+		return "key-empty"
+	case strings.ContainsAny(k, "\"\\"):
+		return "key-quoted-with-quote-or-backslash"
+	}
+	plain := !(k[0] >= '0' && k[0] <= '9')
+	for _, c := range k {
+		if !(c >= 'a' && c <= 'z' || c >= 'A' && c <= 'Z' || c >= '0' && c <= '9' || c == '_') {
+			plain = false
+		}
+	}
+	if plain {
+		return "key-identifier"
+	}
+	return "key-quoted"
 }
 
 func mk(code core.IssueCode, path []any, msg string) core.ZodIssue {
